@@ -179,7 +179,10 @@ impl PathSelector {
                 None => rest,
             };
         }
-        s.starts_with(".*") || Path::from(s).is_absolute()
+        s.starts_with(".*")
+            || Path::from(s).is_absolute()
+            // whatever the spelling: `\/a`, `[/]a`, `.+/a` can match a path that starts at the root
+            || pattern.matches_partially(MAIN_SEPARATOR.to_string().as_str())
     }
 }
 
